@@ -104,23 +104,43 @@ def compare_outcome(ref: dict[str, Any], got_summary: dict[str, Any], got_ledger
 
 
 # ----------------------------------------------------------------------------------------------- C01
-def crash_run(workload: str, k1: Any, k2: Any = None, events: bool = False, sweeps: int = 1) -> bool:
+def crash_run(
+    workload: str,
+    k1: Any,
+    k2: Any = None,
+    events: bool = False,
+    sweeps: int = 1,
+    prop: str = "C01",
+    monitors: tuple[str, ...] = (),
+    compare: bool = True,
+    play: Callable[[World, dict[str, Any]], None] | None = None,
+    ref_tag: str = "",
+    post: Callable[[World, dict[str, Any], Any], tuple[str, Any] | None] | None = None,
+) -> bool:
     """Kill the worker at durable commit number k1 (and the restarted worker at its commit number
-    k2), restart, lock expiry, recovery sweep, drain; compare with the uninterrupted run."""
+    k2), restart (all in-memory state dropped), lock expiry, recovery sweep(s), drain; compare with
+    the uninterrupted run.  ``play(w, state)`` drives a run (default: drain); it is called again
+    after each restart and must be resumable."""
     with hx.Path("crash_run:" + workload) as P:
         with hx.native():
-            ref = reference(workload, events)
+            if play is None:
+                def play(w: World, state: dict[str, Any]) -> None:  # type: ignore[misc]
+                    w.drain()
+            ref = reference(workload, events, pre=(lambda w: play(w, {})) if ref_tag else None, tag=ref_tag)
             w = World(events=events)
             try:
                 crashes = 0
                 crashed_at: list[int] = []
                 sites: list[str] = []
+                state: dict[str, Any] = {}
 
                 def hook_factory(sym: Any) -> Callable[[Any], None]:
                     base = HOOKS.commits
 
                     def hook(conn: Any) -> None:
-                        n = HOOKS.commits - base
+                        if state.get("client"):
+                            return  # a commit made by the client (signal sender), not by the worker
+                        n = HOOKS.commits - base - state.get("client_commits", 0)
                         if hx.decide_eq(sym, n):
                             crashed_at.append(n)
                             sites.append(commit_site())
@@ -129,21 +149,24 @@ def crash_run(workload: str, k1: Any, k2: Any = None, events: bool = False, swee
 
                     return hook
 
-                w.submit(WORKLOADS[workload]())  # the submitter is not the worker: no crash here
+                wf = WORKLOADS[workload]()
+                spec = spec_of(wf)
+                w.submit(wf)  # the submitter is not the worker: no crash here
                 HOOKS.on_commit = hook_factory(k1)
                 try:
-                    w.drain()
+                    play(w, state)
                 except Crash:
                     crashes += 1
                 HOOKS.on_commit = None
                 if crashes:
                     w.restart()
+                    state["client_commits"] = 0
                     if k2 is not None:
                         HOOKS.on_commit = hook_factory(k2)
                     try:
                         for _ in range(sweeps):
                             w.processor.run_recovery()
-                        w.drain()
+                        play(w, state)
                     except Crash:
                         crashes += 1
                     HOOKS.on_commit = None
@@ -151,21 +174,135 @@ def crash_run(workload: str, k1: Any, k2: Any = None, events: bool = False, swee
                         w.restart()
                         for _ in range(sweeps):
                             w.processor.run_recovery()
-                        w.drain()
+                        play(w, state)
                 snap = w.snapshot()
                 summ = summarize(snap)
                 led = _ledger_view(w)
                 if crashes:
                     P.reached("%s@%s" % (workload, crashed_at), {"workload": workload, "crash_commits": list(crashed_at), "sites": list(sites), "final": summ["workflow"]})
-                bad = compare_outcome(ref, summ, led, extra_allowed=crashes)
-                if bad is not None:
-                    return P.fail("C01/crash_run/%s/%s@%s" % (workload, bad[0], "+".join(sites)), {"crashed_at": crashed_at, "sites": sites, **bad[1]})
-                q = quiescent_ok(snap)
-                if q is not None and ref["summary"]["workflow"] in COMPLETE:
-                    return P.fail("C01/crash_run/%s/stuck@%s" % (workload, "+".join(sites)), {"crashed_at": crashed_at, "sites": sites, "why": q})
+                site = "+".join(sites)
+                for m in monitors:
+                    badm = MONITORS[m](w, spec)
+                    if badm is not None:
+                        return P.fail("%s/crash_run/%s/%s@%s" % (prop, workload, badm[0], site), {"crashed_at": crashed_at, "sites": sites, "detail": badm[1]})
+                if compare:
+                    bad = compare_outcome(ref, summ, led, extra_allowed=crashes)
+                    if bad is not None:
+                        return P.fail("%s/crash_run/%s@%s" % (prop, bad[0], site), {"workload": workload, "crashed_at": crashed_at, "sites": sites, **bad[1]})
+                    q = quiescent_ok(snap)
+                    if q is not None:
+                        return P.fail("%s/crash_run/stuck@%s" % (prop, site), {"workload": workload, "crashed_at": crashed_at, "sites": sites, "why": q})
+                if post is not None:
+                    badp = post(w, snap, {"crashed_at": crashed_at, "sites": sites, "injected": [1]})
+                    if badp is not None:
+                        return P.fail("%s/crash_run/%s/%s@%s" % (prop, workload, badp[0], site), {"crashed_at": crashed_at, "sites": sites, "detail": badp[1]})
                 return True
             finally:
                 w.close()
+
+
+def crash_sweeps_run(workload: str, k1: Any) -> bool:
+    """C10, crash half: kill the worker at commit k1, restart, then run the recovery sweep once
+    (run A) or twice in a row (run B); both must end in the same final state with the same
+    executions."""
+    with hx.Path("crash_sweeps:" + workload) as P:
+        with hx.native():
+            outcomes = []
+            crashed_n: list[int] = []
+            site: list[str] = []
+            for sweeps in (1, 2):
+                w = World()
+                try:
+                    w.submit(WORKLOADS[workload]())
+                    base = HOOKS.commits
+
+                    def hook(conn: Any) -> None:
+                        n = HOOKS.commits - base
+                        if (crashed_n and n == crashed_n[0] and sweeps == 2) or (sweeps == 1 and hx.decide_eq(k1, n)):
+                            if sweeps == 1:
+                                crashed_n.append(n)
+                                site.append(commit_site())
+                            HOOKS.dead = True
+                            raise Crash()
+
+                    HOOKS.on_commit = hook
+                    crashed = False
+                    try:
+                        w.drain()
+                    except Crash:
+                        crashed = True
+                    HOOKS.on_commit = None
+                    if not crashed:
+                        return True  # k1 beyond the last commit: nothing to compare
+                    w.restart()
+                    for _ in range(sweeps):
+                        w.processor.run_recovery()
+                    w.drain()
+                    snap = w.snapshot()
+                    outcomes.append((summarize(snap), Counter(_ledger_view(w)), quiescent_ok(snap)))
+                finally:
+                    w.close()
+            P.reached("%s@%s" % (workload, crashed_n), {"workload": workload, "crash_commit": crashed_n, "site": site})
+            (sa, la, qa), (sb, lb, qb) = outcomes
+            for fld in ("workflow", "stages", "tasks", "queue", "dlq"):
+                if sa[fld] != sb[fld]:
+                    return P.fail("C10/crash_sweeps/%s_differs@%s" % (fld, site[0]), {"workload": workload, "crashed_at": crashed_n, "one_sweep": sa[fld], "two_sweeps": sb[fld]})
+            if la != lb:
+                return P.fail("C10/crash_sweeps/executions_differ@%s" % site[0], {"workload": workload, "crashed_at": crashed_n, "only_once": sorted((la - lb).elements())[:3], "only_twice": sorted((lb - la).elements())[:3]})
+            return True
+
+
+def post_suspend_stays(w: World, snap: dict[str, Any], info: dict[str, Any]) -> tuple[str, Any] | None:
+    runs = [e for e in w.ledger.entries if e["ref"] == "w"]
+    wst = snap["stages"]["w"]["status"]
+    if wst != "SUSPENDED" or snap["workflow"] != "RUNNING" or snap["queue"] != 0:
+        return ("suspended_stage_did_not_stay_suspended/%s" % wst, {"w": wst, "workflow": snap["workflow"], "queue": snap["queue"], "runs": len(runs)})
+    if not 1 <= len(runs) <= 2:
+        return ("suspending_task_runs=%d" % len(runs), {"runs": len(runs)})
+    return None
+
+
+def post_signal_crash(persistent: bool) -> Callable[[World, dict[str, Any], Any], tuple[str, Any] | None]:
+    def post(w: World, snap: dict[str, Any], info: dict[str, Any]) -> tuple[str, Any] | None:
+        runs = [e for e in w.ledger.entries if e["ref"] == "w"]
+        wst = snap["stages"]["w"]["status"]
+        extra = 1 if info["crashed_at"] else 0
+        if wst != "SUCCEEDED" or snap["workflow"] != "SUCCEEDED":
+            return ("signal_lost_or_not_resumed/%s" % wst, {"w": wst, "workflow": snap["workflow"], "runs": len(runs)})
+        if not 2 <= len(runs) <= 2 + extra:
+            return ("resumed_runs=%d" % len(runs), {"runs": len(runs)})
+        sigs = [e.get("signal") for e in runs if e.get("signal")]
+        if not sigs or any(sg != ["go", {"v": 7}] for sg in sigs):
+            return ("payload_differs", {"seen": sigs})
+        if len(sigs) > 1 + extra:
+            return ("signal_consumed_more_than_once", {"seen": sigs})
+        zr = [e for e in w.ledger.entries if e["ref"] == "z"]
+        if not 1 <= len(zr) <= 1 + extra:
+            return ("downstream_runs=%d" % len(zr), {"runs": len(zr)})
+        return None
+
+    return post
+
+
+def signal_crash_run(k1: Any, persistent: bool) -> bool:
+    """Suspend workload; the signal is sent once the stage is durably suspended; the worker is
+    killed at commit k1 of the whole run (suspend step, resume step, everything in between)."""
+    inj = make_inject_signal(persistent)
+
+    def play(w: World, state: dict[str, Any]) -> None:
+        w.drain()
+        if not state.get("sent"):
+            state["client"] = True
+            before = HOOKS.commits
+            try:
+                inj(w)
+            finally:
+                state["client"] = False
+            state["client_commits"] = state.get("client_commits", 0) + (HOOKS.commits - before)
+            state["sent"] = True
+        w.drain()
+
+    return crash_run("suspend", k1, prop="C18", play=play, compare=False, post=post_signal_crash(persistent))
 
 
 # ----------------------------------------------------------------------------------------------- monitors
@@ -210,7 +347,8 @@ def monitor_single_start(w: World) -> tuple[str, Any] | None:
             arms[row["id"]] += 1
     for sid, n in starts.items():
         if n > 1 + arms[sid]:
-            return ("stage_started_twice", {"stage": sid, "starts": n, "rearms": arms[sid]})
+            ref = next((r for r, i in w.refs.items() if i == sid), sid)
+            return ("stage_started_twice/%s" % ref, {"stage": ref, "starts": n, "rearms": arms[sid]})
     return None
 
 
@@ -219,9 +357,9 @@ def monitor_no_rerun_of_recorded(w: World) -> tuple[str, Any] | None:
     durable task row must be RUNNING (read on a second connection by the harness task)."""
     for e in w.ledger.entries:
         if e["durable_task"] != "RUNNING":
-            return ("task_executed_while_%s" % e["durable_task"], {k: e[k] for k in ("ref", "task", "durable_task", "durable_stage", "n")})
+            return ("task_executed_while_%s/%s.%s" % (e["durable_task"], e["ref"], e["task"]), {k: e[k] for k in ("ref", "task", "durable_task", "durable_stage", "n")})
         if e["durable_stage"] != "RUNNING":
-            return ("task_executed_in_stage_%s" % e["durable_stage"], {k: e[k] for k in ("ref", "task", "durable_task", "durable_stage", "n")})
+            return ("task_executed_in_stage_%s/%s.%s" % (e["durable_stage"], e["ref"], e["task"]), {k: e[k] for k in ("ref", "task", "durable_task", "durable_stage", "n")})
     return None
 
 
@@ -274,9 +412,9 @@ def monitor_dependencies(w: World, wf_spec: dict[str, dict[str, Any]]) -> tuple[
         if jt == "OR":
             continue  # activated-branch bookkeeping is not reconstructed here (DESIGN C03 Outside)
         if ok_n < need:
-            return ("ran_before_dependencies/%s" % jt, {"stage": e["ref"], "upstreams": dict(zip(spec["deps"], ups)), "need": need})
+            return ("ran_before_dependencies/%s/%s" % (jt, e["ref"]), {"stage": e["ref"], "upstreams": dict(zip(spec["deps"], ups)), "need": need})
         if any(u in ("TERMINAL", "CANCELED", "STOPPED") for u in ups) and jt in ("AND",):
-            return ("ran_downstream_of_halted", {"stage": e["ref"], "upstreams": dict(zip(spec["deps"], ups))})
+            return ("ran_downstream_of_halted/%s" % e["ref"], {"stage": e["ref"], "upstreams": dict(zip(spec["deps"], ups))})
     return None
 
 
@@ -374,7 +512,7 @@ def schedule_run(
                     trace.append((idx, len(vis), mtype, ack))
                     step += 1
                 if step >= MAX_STEPS:
-                    return P.fail("%s/schedule/no_termination" % prop, {"trace": trace[-12:]})
+                    return P.fail("%s/schedule/%s/no_termination" % (prop, workload), {"trace": trace[-12:]})
                 w.processor._check_dlq()
                 snap = w.snapshot()
                 summ = summarize(snap)
@@ -389,27 +527,376 @@ def schedule_run(
                 for m in monitors:
                     bad = MONITORS[m](w, spec)
                     if bad is not None:
-                        return P.fail("%s/schedule/%s" % (prop, bad[0]), {"workload": workload, "trace": trace[:20], "injected": injected, "detail": bad[1]})
-                if compare == "reference" and ref is not None:
+                        return P.fail("%s/schedule/%s/%s" % (prop, workload, bad[0]), {"workload": workload, "trace": trace[:30], "injected": injected, "detail": bad[1]})
+                info = {"workload": workload, "trace": trace[:30], "injected": injected, "errors": w.handler_errors[:3]}
+                if compare in ("reference", "counts", "workflow") and ref is not None:
                     rs = ref["summary"]
-                    for fld in ("workflow", "stages", "tasks"):
-                        if summ[fld] != rs[fld]:
-                            return P.fail("%s/schedule/outcome_%s_differs" % (prop, fld), {"workload": workload, "expected": rs[fld], "got": summ[fld], "trace": trace[:24], "injected": injected, "errors": w.handler_errors[:3]})
-                    if small_view(_ledger_view(w)) != small_view(ref["ledger"]):
+                    if summ["workflow"] != rs["workflow"]:
+                        return P.fail("%s/schedule/%s/outcome_differs/%s" % (prop, workload, state_sig(summ)), {"expected": rs["workflow"], "got": summ["workflow"], "stages": summ["stages"], "tasks": summ["tasks"], **info})
+                    if compare in ("reference", "counts") and summ["stages"] != rs["stages"]:
+                        return P.fail("%s/schedule/%s/stage_outcome_differs/%s" % (prop, workload, state_sig(summ)), {"expected": rs["stages"], "got": summ["stages"], **info})
+                    if compare == "reference":
                         a, b = small_view(_ledger_view(w)), small_view(ref["ledger"])
-                        return P.fail("%s/schedule/executions_differ" % prop, {"workload": workload, "extra": sorted((a - b).elements())[:4], "missing": sorted((b - a).elements())[:4], "trace": trace[:24], "injected": injected})
-                if compare in ("reference", "quiescent"):
+                    else:
+                        a = Counter((r, t) for r, t, _ in _ledger_view(w))
+                        b = Counter((r, t) for r, t, _ in ref["ledger"])
+                    if compare in ("reference", "counts") and a != b:
+                        ex, mi = sorted((a - b).elements()), sorted((b - a).elements())
+                        sig = "extra=%s,missing=%s" % (sorted({"%s.%s" % (e[0], e[1]) for e in ex}), sorted({"%s.%s" % (e[0], e[1]) for e in mi}))
+                        return P.fail("%s/schedule/%s/executions_differ/%s" % (prop, workload, sig.replace(" ", "")), {"extra": ex[:4], "missing": mi[:4], **info})
+                if compare in ("reference", "counts", "workflow", "quiescent"):
                     q = quiescent_ok(snap)
                     if q is not None:
-                        return P.fail("%s/schedule/not_quiescent" % prop, {"workload": workload, "why": q, "trace": trace[:24], "injected": injected, "errors": w.handler_errors[:3]})
+                        return P.fail("%s/schedule/%s/not_quiescent/%s" % (prop, workload, state_sig(summ)), {"why": q, **info})
                 if post is not None:
                     bad = post(w, snap, {"trace": trace, "injected": injected, "ref": ref})
                     if bad is not None:
-                        return P.fail("%s/schedule/%s" % (prop, bad[0]), {"workload": workload, "trace": trace[:24], "injected": injected, "detail": bad[1]})
+                        return P.fail("%s/schedule/%s/%s" % (prop, workload, bad[0]), {"workload": workload, "trace": trace[:30], "injected": injected, "detail": bad[1]})
                 return True
             finally:
                 w.close()
 
 
+def state_sig(summ: dict[str, Any]) -> str:
+    """Abstract shape of a final state: workflow status + the stages/tasks that are not finished."""
+    parts = [str(summ["workflow"])]
+    for ref in sorted(summ["stages"]):
+        st = summ["stages"][ref]
+        tasks = [t + "=" + s for t, s in summ["tasks"].get(ref, []) if s not in COMPLETE]
+        if st not in COMPLETE or tasks:
+            parts.append("%s=%s%s" % (ref, st, ("[" + ",".join(tasks) + "]") if tasks else ""))
+    return ":".join(parts)
+
+
 def injected_tags(injected: list[int]) -> list[tuple[int, int]]:
     return [(x // 100000, x % 100000) for x in injected]
+
+
+# ----------------------------------------------------------------------------------------------- C10 sweeps
+def inject_sweep(w: World) -> None:
+    w.processor.run_recovery()
+
+
+# ----------------------------------------------------------------------------------------------- C17 cancel
+def inject_cancel(w: World) -> None:
+    wf = w.store.retrieve(w.workflow_id)
+    w.orchestrator.cancel(wf, "vf", "cancel requested by harness")
+
+
+def post_cancel(w: World, snap: dict[str, Any], info: dict[str, Any]) -> tuple[str, Any] | None:
+    aud = w.audit()
+    cseq = next((r["seq"] for r in aud if r["tbl"] == "cancel" and str(r["new"]) == "1"), None)
+    if cseq is None:
+        # the cancel request was never processed (injected after the end, or not injected)
+        if info["injected"] and snap["workflow"] not in COMPLETE:
+            return ("cancel_not_processed/" + str(snap["workflow"]), {"workflow": snap["workflow"]})
+        return None
+    late = [e for e in w.ledger.entries if e["canceled"]]
+    if late:
+        e = late[0]
+        return ("task_started_after_cancel/%s.%s" % (e["ref"], e["task"]), {"ref": e["ref"], "task": e["task"], "n": e["n"]})
+    hist = _status_history(w)
+    wf_done_at_cancel = None
+    for r in aud:
+        if r["tbl"] == "workflow" and r["seq"] < cseq and r["new"] in COMPLETE:
+            wf_done_at_cancel = r["new"]
+    st = {k: v for k, v in snap["stages"].items()}
+    top = {k: v for k, v in st.items() if v["parent"] is None}
+    if snap["workflow"] not in COMPLETE:
+        return ("workflow_not_final_after_cancel/" + state_sig(summarize(snap)), {"workflow": snap["workflow"], "stages": {k: v["status"] for k, v in st.items()}})
+    thist: dict[str, list[tuple[int, str]]] = {}
+    for r in aud:
+        if r["tbl"] == "task":
+            thist.setdefault(r["id"], [(0, "NOT_STARTED")]).append((r["seq"], r["new"]))
+    tasks_of: dict[str, list[str]] = {}
+    tname_of: dict[str, str] = {}
+    for r in w.q("SELECT id, stage_id, name FROM task_executions"):
+        tasks_of.setdefault(r["stage_id"], []).append(r["id"])
+        tname_of[r["id"]] = r["name"]
+
+    def in_effect_finished(stage_id: str) -> bool:
+        st0 = _status_at(hist, stage_id, cseq)
+        if st0 in COMPLETE:
+            return True
+        tids = tasks_of.get(stage_id, [])
+        ref = next((r for r, i in w.refs.items() if i == stage_id), None)
+        # a task whose body had already returned its final result before the cancel (completion
+        # message still queued) has in effect finished
+        ran = {tname_of.get(t) for t in tids if any(
+            e["ref"] == ref and e["task"] == tname_of.get(t) and e["audit_seq"] < cseq and e["kind"] in ("ok", "terminal")
+            for e in w.ledger.entries)}
+        return st0 == "RUNNING" and bool(tids) and all(
+            _status_at(thist, t, cseq) in COMPLETE or (_status_at(thist, t, cseq) == "RUNNING" and tname_of.get(t) in ran) for t in tids)
+
+    all_done_before = all(in_effect_finished(v["id"]) for v in top.values())
+    if wf_done_at_cancel is None and not all_done_before and snap["workflow"] != "CANCELED":
+        # "CANCELED unless it had in effect already finished"; tolerated: a terminal failure that a
+        # task had already produced before the cancel was accepted wins over the cancel.
+        bad_final = snap["workflow"]
+        terminal_before = any(e["kind"] == "terminal" and e["audit_seq"] < cseq for e in w.ledger.entries)
+        if not (bad_final == "TERMINAL" and terminal_before):
+            return ("workflow_final_not_canceled/%s" % bad_final, {"workflow": bad_final, "at_cancel": {k: _status_at(hist, v["id"], cseq) for k, v in top.items()}})
+    for k, v in st.items():
+        before = _status_at(hist, v["id"], cseq)
+        final = v["status"]
+        if final not in COMPLETE and not (before in COMPLETE and final == "NOT_STARTED"):
+            return ("stage_not_finished_after_cancel/%s=%s" % (k, final), {"stage": k, "at_cancel": before, "final": final, "tasks": v["tasks"]})
+        if wf_done_at_cancel is not None:
+            continue
+        if before in COMPLETE:
+            # may only change through the re-arm of a jump that was already in flight, and then ends canceled
+            if final not in (before, "CANCELED", "NOT_STARTED"):
+                return ("finished_stage_changed_after_cancel/%s" % k, {"stage": k, "before": before, "after": final})
+        elif before == "NOT_STARTED":
+            # never started: canceled (or skipped by a forward jump that was already in flight)
+            if final not in ("CANCELED", "SKIPPED"):
+                return ("unstarted_stage_not_canceled/%s=%s" % (k, final), {"stage": k, "at_cancel": before, "final": final, "tasks": v["tasks"]})
+        # a stage that was running may finish in any final status: none of its tasks started after the
+        # cancel (checked above), so it ended with the work it had already done
+    return None
+
+
+# ----------------------------------------------------------------------------------------------- C18 signals
+def make_inject_signal(persistent: bool, payload: int = 7) -> Callable[[World], None]:
+    def inj(w: World) -> None:
+        from stabilize.hitl import send_signal
+
+        send_signal(w.queue, w.workflow_id, w.refs["w"], "go", {"v": payload}, persistent=persistent)
+
+    return inj
+
+
+def make_post_signal(persistent: bool, payload: int = 7) -> Callable[[World, dict[str, Any], Any], tuple[str, Any] | None]:
+    def post(w: World, snap: dict[str, Any], info: dict[str, Any]) -> tuple[str, Any] | None:
+        runs = [e for e in w.ledger.entries if e["ref"] == "w"]
+        sent = bool(info["injected"])
+        handled_while = list(w.signal_seen)
+        wst = snap["stages"]["w"]["status"]
+        if not sent:
+            if wst != "SUSPENDED" or len(runs) != 1 or snap["workflow"] != "RUNNING":
+                return ("suspended_stage_did_not_stay_suspended/%s" % wst, {"w": wst, "runs": len(runs), "workflow": snap["workflow"]})
+            return None
+        effective = persistent or (handled_while and handled_while[0] == "SUSPENDED")
+        if effective:
+            if len(runs) != 2:
+                return ("signal_%s_runs=%d" % ("persistent" if persistent else "transient", len(runs)), {"runs": len(runs), "w": wst, "handled_while": handled_while, "workflow": snap["workflow"]})
+            if wst != "SUCCEEDED" or snap["workflow"] != "SUCCEEDED":
+                return ("signal_consumed_but_not_finished/%s" % wst, {"w": wst, "workflow": snap["workflow"], "handled_while": handled_while})
+            sig = runs[1].get("signal")
+            if sig != ["go", {"v": payload}]:
+                return ("payload_differs", {"seen": sig})
+            left = snap["stages"]["w"]["context"].get("_buffered_signals") or []
+            if left:
+                return ("signal_still_buffered_after_resume", {"left": left})
+        else:
+            if len(runs) > 1 and not handled_while:
+                return None
+            if handled_while and handled_while[0] != "SUSPENDED":
+                if len(runs) != 1 or wst != "SUSPENDED":
+                    return ("transient_signal_had_effect_while_%s" % handled_while[0], {"runs": len(runs), "w": wst})
+        return None
+
+    return post
+
+
+# ----------------------------------------------------------------------------------------------- C14 transient
+DOCUMENTED_ATTEMPT_LIMIT = 10  # Message.max_attempts default; docs: "max 10 attempts"
+
+
+def transient_run(n_sym: Any, with_ctx: bool, pos: int, ntasks: int, choices: list[Any] | None = None, max_n: int = 14) -> bool:
+    """A task that raises TransientError n times then succeeds.  n is symbolic (decoded with
+    distinguishing questions), delivery FIFO or under the scheduler."""
+    from vf.native import wl_transient
+
+    with hx.Path("transient") as P:
+        with hx.native():
+            n = 0
+            for k in range(1, max_n + 1):
+                if hx.decide_eq(n_sym, k):
+                    n = k
+                    break
+            L = DOCUMENTED_ATTEMPT_LIMIT
+            w = World()
+            try:
+                w.submit(wl_transient(n, with_ctx=with_ctx, pos=pos, ntasks=ntasks))
+                tname = "t%d" % pos
+                step = 0
+                cp = 0
+                while step < 500:
+                    if not w.make_visible():
+                        break
+                    now = stubs.CLOCK.peek_ms()
+                    vis = [r for r in w.rows() if r["attempts"] < w.queue_max_attempts and r["deliver_ms"] // 1000 <= now // 1000
+                           and (r["lock_ms"] is None or r["lock_ms"] // 1000 < now // 1000)]
+                    if not vis:
+                        break
+                    vis.sort(key=lambda r: (r["deliver_at"], r["id"]))
+                    idx = 0
+                    if choices and cp < len(choices) and len(vis) > 1:
+                        idx = hx.pick(choices[cp], min(len(vis), 3))
+                        cp += 1
+                    w.deliver(vis[idx]["id"])
+                    step += 1
+                    if w.ledger.count("a", tname) > L + 5:
+                        break
+                execs = [e for e in w.ledger.entries if e["ref"] == "a" and e["task"] == tname]
+                snap = w.snapshot()
+                P.reached("n=%d ctx=%s pos=%d/%d" % (n, with_ctx, pos, ntasks), {"n": n, "with_ctx": with_ctx, "pos": pos, "executions": len(execs), "workflow": snap["workflow"]})
+                expected = min(n, L) + (1 if n < L else 0)
+                info = {"n": n, "with_ctx": with_ctx, "pos": pos, "ntasks": ntasks, "executions": len(execs), "expected": expected, "workflow": snap["workflow"], "stage": snap["stages"]["a"]["status"], "tasks": snap["stages"]["a"]["tasks"]}
+                if len(execs) > expected:
+                    if len(execs) > L:
+                        return P.fail("C14/transient/retried_beyond_limit", info)
+                    return P.fail("C14/transient/too_many_executions", info)
+                if len(execs) < expected:
+                    return P.fail("C14/transient/too_few_executions", info)
+                if with_ctx:
+                    seen = [e.get("progress_seen") for e in execs]
+                    if seen != list(range(len(execs))):
+                        return P.fail("C14/transient/progress_lost", {**info, "progress_seen": seen})
+                if n < L:
+                    if snap["workflow"] != "SUCCEEDED" or snap["stages"]["a"]["status"] != "SUCCEEDED":
+                        return P.fail("C14/transient/not_succeeded_after_recovering", info)
+                else:
+                    tstat = dict(snap["stages"]["a"]["tasks"]).get(tname)
+                    if tstat != "TERMINAL" or snap["stages"]["a"]["status"] != "TERMINAL" or snap["workflow"] != "TERMINAL":
+                        return P.fail("C14/transient/not_terminal_at_limit", info)
+                q = quiescent_ok(snap)
+                if q is not None:
+                    return P.fail("C14/transient/not_quiescent", {**info, "why": q})
+                return True
+            finally:
+                w.close()
+
+
+def poll_run(n_sym: Any, pos: int, ntasks: int, max_n: int = 6) -> bool:
+    """A task that reports RUNNING n times, saving a counter in its context each time."""
+    from vf.native import OK, stage, workflow
+
+    with hx.Path("poll") as P:
+        with hx.native():
+            n = 0
+            for k in range(1, max_n + 1):
+                if hx.decide_eq(n_sym, k):
+                    n = k
+                    break
+            tasks = {}
+            for i in range(1, ntasks + 1):
+                tasks["t%d" % i] = {"kind": "poll", "n": n} if i == pos else dict(OK)
+            w = World()
+            try:
+                w.submit(workflow([stage("a", tasks=tasks), stage("b", ["a"])]))
+                w.drain()
+                tname = "t%d" % pos
+                execs = [e for e in w.ledger.entries if e["ref"] == "a" and e["task"] == tname]
+                snap = w.snapshot()
+                P.reached("poll n=%d pos=%d/%d" % (n, pos, ntasks), {"n": n, "executions": len(execs)})
+                seen = [int(e["ctx"].get("polls_" + tname, 0)) for e in execs]
+                info = {"n": n, "pos": pos, "executions": len(execs), "polls_seen": seen, "workflow": snap["workflow"]}
+                if len(execs) != n + 1:
+                    return P.fail("C14/poll/executions", info)
+                if seen != list(range(n + 1)):
+                    return P.fail("C14/poll/saved_context_lost", info)
+                if snap["workflow"] != "SUCCEEDED":
+                    return P.fail("C14/poll/not_succeeded", info)
+                return True
+            finally:
+                w.close()
+
+
+# ----------------------------------------------------------------------------------------------- C15 loops
+def loop_shapes() -> dict[str, Any]:
+    from vf.native import OK, stage, workflow
+
+    def J(target: str, times: int) -> dict[str, Any]:
+        return {"t1": {"kind": "jump", "target": target, "times": times}}
+
+    def selfloop(times: int, ctx: Any) -> Any:
+        return workflow([stage("a", tasks=J("a", times)), stage("b", ["a"])], context=ctx), {"a": "loop", "b": "after"}, "a"
+
+    def cycle2(times: int, ctx: Any) -> Any:
+        return workflow([stage("t"), stage("x", ["t"], tasks=J("t", times)), stage("z", ["x"])], context=ctx), {"t": "loop", "x": "loop", "z": "after"}, "x"
+
+    def cycle3(times: int, ctx: Any) -> Any:
+        return workflow([stage("t"), stage("a", ["t"]), stage("x", ["a"], tasks=J("t", times)), stage("z", ["x"])], context=ctx), {"t": "loop", "a": "loop", "x": "loop", "z": "after"}, "x"
+
+    def cycle4(times: int, ctx: Any) -> Any:
+        return workflow([stage("t"), stage("a", ["t"]), stage("b", ["a"]), stage("x", ["b"], tasks=J("t", times)), stage("z", ["x"])], context=ctx), {"t": "loop", "a": "loop", "b": "loop", "x": "loop", "z": "after"}, "x"
+
+    def side_fanin(times: int, ctx: Any) -> Any:
+        # r -> t -> x(jump t) ; r -> s (side branch, independent of t) ; z joins x and s.
+        return workflow([stage("r"), stage("t", ["r"]), stage("x", ["t"], tasks=J("t", times)), stage("s", ["r"]), stage("z", ["x", "s"])], context=ctx), {"r": "once", "t": "loop", "x": "loop", "s": "once", "z": "after"}, "x"
+
+    return {"selfloop": selfloop, "cycle2": cycle2, "cycle3": cycle3, "cycle4": cycle4, "side_fanin": side_fanin}
+
+
+DEFAULT_MAX_JUMPS_DOC = 10
+
+
+def loop_run(shape: str, iters_sym: Any, max_jumps: int | None, choices: list[Any] | None = None, max_iters: int = 13) -> bool:
+    with hx.Path("loop:" + shape) as P:
+        with hx.native():
+            iters = 0
+            for k in range(1, max_iters + 1):
+                if hx.decide_eq(iters_sym, k):
+                    iters = k
+                    break
+            limit = DEFAULT_MAX_JUMPS_DOC if max_jumps is None else max_jumps
+            ctx = None if max_jumps is None else {"_max_jumps": max_jumps}
+            wf, roles, source = loop_shapes()[shape](iters, ctx)
+            w = World()
+            try:
+                w.submit(wf)
+                step = 0
+                cp = 0
+                while step < 900:
+                    if not w.make_visible():
+                        break
+                    now = stubs.CLOCK.peek_ms()
+                    vis = [r for r in w.rows() if r["attempts"] < w.queue_max_attempts and r["deliver_ms"] // 1000 <= now // 1000
+                           and (r["lock_ms"] is None or r["lock_ms"] // 1000 < now // 1000)]
+                    if not vis:
+                        break
+                    vis.sort(key=lambda r: (r["deliver_at"], r["id"]))
+                    idx = 0
+                    if choices and cp < len(choices) and len(vis) > 1:
+                        idx = hx.pick(choices[cp], min(len(vis), 3))
+                        cp += 1
+                    w.deliver(vis[idx]["id"])
+                    step += 1
+                snap = w.snapshot()
+                summ = summarize(snap)
+                jumps_handled = sum(1 for m, _ in w.handled if m == "JumpToStage")
+                P.reached("%s iters=%d max=%s" % (shape, iters, max_jumps), {"shape": shape, "iters": iters, "max_jumps": max_jumps, "jumps_handled": jumps_handled, "final": summ["workflow"]})
+                info = {"shape": shape, "iters": iters, "max_jumps": max_jumps, "limit": limit, "jumps_handled": jumps_handled, "final": summ, "execs": dict(Counter(e["ref"] for e in w.ledger.entries))}
+                if step >= 900:
+                    return P.fail("C15/loop/%s/no_termination" % shape, info)
+                done = min(iters, limit)  # jumps actually performed
+                exhausted = iters > limit
+                execs = Counter(e["ref"] for e in w.ledger.entries)
+                for ref, role in roles.items():
+                    want = {"loop": done + 1, "once": 1, "after": 0 if exhausted else 1}[role]
+                    if execs.get(ref, 0) != want:
+                        return P.fail("C15/loop/%s/executions/%s" % (shape, ref), {**info, "stage": ref, "want": want, "got": execs.get(ref, 0)})
+                if exhausted:
+                    if summ["stages"][source] != "TERMINAL" or summ["workflow"] != "TERMINAL":
+                        return P.fail("C15/loop/%s/budget_spent_but_not_terminal" % shape, info)
+                else:
+                    if summ["workflow"] != "SUCCEEDED" or any(v != "SUCCEEDED" for v in summ["stages"].values()):
+                        return P.fail("C15/loop/%s/not_succeeded" % shape, info)
+                q = quiescent_ok(snap)
+                if q is not None:
+                    return P.fail("C15/loop/%s/not_quiescent" % shape, {**info, "why": q})
+                bad = monitor_no_rerun_of_recorded(w)
+                if bad is not None:
+                    return P.fail("C15/loop/%s/%s" % (shape, bad[0]), {**info, "detail": bad[1]})
+                return True
+            finally:
+                w.close()
+
+
+def forward_jump_run(choices: list[Any]) -> bool:
+    """s jumps forward over the diamond (p,q -> m) to e: bypassed stages SKIPPED and never run."""
+    with hx.Path("fwdjump") as P:
+        ok = schedule_run("C15", "fwdjump", choices, monitors=("C02",), compare="counts")
+    return ok
